@@ -207,4 +207,57 @@ impl<'a> LTr<'a> {
         }
         Ok((format!("(List.filter (fun {name} => {b}) {xs})"), LTy::List(Box::new(elem.clone()))))
     }
+
+    /// `if c { a } else { b }` in tail position of the function body: every branch ends the function
+    fn if_tail(&mut self, i: &ExprIf) -> R<()> {
+        if matches!(&*i.cond, Expr::Let(_)) {
+            return Err("if let".into());
+        }
+        let (c, _) = self.expr(&i.cond)?;
+        self.emit(format!("if {c} then"));
+        self.tail_block(&i.then_branch)?;
+        let (_, els) = i.else_branch.as_ref().ok_or("value `if` without else")?;
+        self.emit("else".into());
+        match &**els {
+            Expr::Block(b) => self.tail_block(&b.block)?,
+            Expr::If(j) => {
+                self.ind += 1;
+                self.if_tail(j)?;
+                self.ind -= 1;
+            }
+            _ => return Err("else branch".into()),
+        }
+        Ok(())
+    }
+
+    fn tail_block(&mut self, b: &Block) -> R<()> {
+        self.ind += 1;
+        let saved = self.vars.clone();
+        let before = self.lines.len();
+        if let Some(v) = self.block(b, true)? {
+            let e = self.exit(&v);
+            self.emit(e);
+        } else if self.lines.len() == before {
+            return Err("branch without a value".into());
+        }
+        self.vars = saved;
+        self.ind -= 1;
+        Ok(())
+    }
+}
+
+/// does the `if` produce a value (its first branch ends in an expression that is not a statement)?
+fn value_if(i: &ExprIf) -> bool {
+    i.else_branch.is_some()
+        && match i.then_branch.stmts.last() {
+            Some(Stmt::Expr(e, None)) => match e {
+                Expr::If(j) => value_if(j),
+                Expr::Return(_) | Expr::ForLoop(_) | Expr::While(_) | Expr::Assign(_) | Expr::Block(_) => false,
+                Expr::Binary(b) if is_assign_op(&b.op) => false,
+                Expr::Match(_) => false,
+                Expr::Tuple(t) if t.elems.is_empty() => false,
+                _ => true,
+            },
+            _ => false,
+        }
 }
